@@ -220,9 +220,16 @@ func (env *SpecEnv) eval(e *SExpr, hint types.Type) Val {
 		sub := newSpecEnvFrom(env)
 		var binds []string
 		for i, v := range e.Vars {
-			t := env.resolveType(e.Types[i])
+			tt := e.Types[i]
+			isMath := false
+			if strings.HasPrefix(tt, "math ") {
+				// a mathematical value (a map as an array / set), not a reference to a Go object
+				isMath = true
+				tt = strings.TrimSpace(strings.TrimPrefix(tt, "math "))
+			}
+			t := env.resolveType(tt)
 			name := sym("q!" + v)
-			val := Val{T: t, S: name}
+			val := Val{T: t, S: name, Math: isMath}
 			sub.vars[v] = val
 			binds = append(binds, fmt.Sprintf("(%s %s)", name, sub.sortOf(val)))
 		}
@@ -653,6 +660,18 @@ func (env *SpecEnv) call(e *SExpr, hint types.Type) Val {
 		k := env.eval(args[1], mt.Key())
 		dom, _, _ := vc.mapComps(mt)
 		return Val{T: tBool, S: and(not(eq(m.S, "0")), app("select", app("select", vc.get(env.mem, dom), m.S), k.S))}
+	case "mapval":
+		// mapval(m, k): the stored value without the presence test (meaningful under has(m, k));
+		// unlike m[k] it contains no if-then-else, so it can be used in a trigger
+		need(2)
+		m := env.eval(args[0], nil)
+		mt, ok := under(m.T).(*types.Map)
+		if !ok || m.Math {
+			env.fail(e, "mapval(m,k) needs a Go map")
+		}
+		k := env.eval(args[1], mt.Key())
+		_, val, _ := vc.mapComps(mt)
+		return Val{T: mt.Elem(), S: app("select", app("select", vc.get(env.mem, val), m.S), k.S)}
 	case "struct":
 		// struct(T, f0, f1, ...): a struct value
 		if len(args) < 1 {
@@ -950,6 +969,23 @@ func (env *SpecEnv) region(e *SExpr) []region {
 	}
 	if e.Op == "call" && e.Args[0].Op == "ident" {
 		switch e.Args[0].Name {
+		case "fresh":
+			// fresh(T, U, ...): the function allocates, but only storage of these types (slice/array
+			// elements of type T, structs T, cells holding a T); every other component is untouched
+			// even at new references
+			r := region{kind: "fresh"}
+			for _, a := range e.Args[1:] {
+				t := env.resolveType(a.Src)
+				r.comps = append(r.comps, vc.elemComp(t))
+				if st, ok := under(t).(*types.Struct); ok {
+					for i := 0; i < st.NumFields(); i++ {
+						r.comps = append(r.comps, vc.fieldComp(t, i))
+					}
+				} else if !isArray(t) {
+					r.comps = append(r.comps, vc.cellComp(t))
+				}
+			}
+			return []region{r}
 		case "map":
 			m := env.eval(e.Args[1], nil)
 			mt, ok := under(m.T).(*types.Map)
@@ -966,6 +1002,11 @@ func (env *SpecEnv) region(e *SExpr) []region {
 				hi = env.toBV64(env.eval(e.Args[3], tInt))
 			}
 			return []region{env.elemsRegion(s, lo, hi)}
+		case "array":
+			// the whole backing array of a slice (every index, also beyond len and cap)
+			s := env.eval(e.Args[1], nil)
+			comp := vc.elemComp(sliceElem(s.T))
+			return []region{{kind: "elems", comp: comp, comps: []string{comp}, ref: app("sarr", s.S), lo: bvLit(64, 0), hi: "#xffffffffffffffff"}}
 		case "cell":
 			p := env.eval(e.Args[1], nil)
 			pt := under(p.T).(*types.Pointer)
@@ -1027,14 +1068,34 @@ func (env *SpecEnv) modifiesOnly(args []*SExpr) string {
 	vc := env.vc
 	oenv := env.withMem(env.old)
 	byComp := map[string][]region{}
+	var freshComps map[string]bool
 	for _, a := range args {
 		for _, r := range oenv.region(a) {
+			if r.kind == "fresh" {
+				if len(r.comps) > 0 {
+					if freshComps == nil {
+						freshComps = map[string]bool{}
+					}
+					for _, c := range r.comps {
+						freshComps[c] = true
+					}
+				}
+				continue
+			}
 			for _, c := range r.comps {
 				byComp[c] = append(byComp[c], r)
 			}
 		}
 	}
 	brk0 := vc.get(env.old, vc.brkComp())
+	// with a typed fresh(...) argument, components that are not listed there are unchanged at every
+	// reference (no object of theirs has been allocated since entry)
+	below := func(c string) string {
+		if freshComps != nil && !freshComps[c] {
+			return "true"
+		}
+		return fmt.Sprintf("(< _r %s)", brk0)
+	}
 	var cs []string
 	for _, c := range sortedKeys(vc.compSort) {
 		if immutableComp(c) || c == "brk" || strings.HasPrefix(c, "G:iter:") || strings.HasPrefix(c, "L:") || vc.scratch(c) {
@@ -1061,13 +1122,13 @@ func (env *SpecEnv) modifiesOnly(args []*SExpr) string {
 			for _, r := range rs {
 				in = append(in, and(eq("_r", r.ref), app("bvule", r.lo, "_j"), app("bvult", "_j", r.hi)))
 			}
-			cs = append(cs, fmt.Sprintf("(forall ((_r Int) (_j (_ BitVec 64))) (! (=> (and (< _r %s) (not %s)) (= (select (select %s _r) _j) (select (select %s _r) _j))) :pattern ((select (select %s _r) _j))))", brk0, or(in...), n, o, n))
+			cs = append(cs, fmt.Sprintf("(forall ((_r Int) (_j (_ BitVec 64))) (! (=> (and %s (not %s)) (= (select (select %s _r) _j) (select (select %s _r) _j))) :pattern ((select (select %s _r) _j))))", below(c), or(in...), n, o, n))
 		case strings.HasPrefix(srt, "(Array Int "):
 			var in []string
 			for _, r := range rs {
 				in = append(in, eq("_r", r.ref))
 			}
-			cs = append(cs, fmt.Sprintf("(forall ((_r Int)) (! (=> (and (< _r %s) (not %s)) (= (select %s _r) (select %s _r))) :pattern ((select %s _r))))", brk0, or(in...), n, o, n))
+			cs = append(cs, fmt.Sprintf("(forall ((_r Int)) (! (=> (and %s (not %s)) (= (select %s _r) (select %s _r))) :pattern ((select %s _r))))", below(c), or(in...), n, o, n))
 		default:
 			cs = append(cs, eq(n, o))
 		}
